@@ -207,11 +207,13 @@ fn check_pvs(a: &mut Analysis, g: &GoRec) {
 }
 
 /// C08-R1 second half: an iteration deeper than the limit may be *reported* (a cached deeper answer) but must not have
-/// been *searched*: it must not have made a single node poll.
+/// been *searched*. One look at the stop flag per reported iteration is not a search (an engine may poll in its
+/// iteration loop); a searched iteration polls at least once per legal root move, and roots with a single legal move are
+/// answered without any.
 fn check_deeper_than_limit(a: &mut Analysis, g: &GoRec, n: u32) {
     let mut prev_polls = 0u64;
     for &(_, d, polls_at) in &g.infos {
-        if d > n && polls_at > prev_polls {
+        if d > n && polls_at > prev_polls + 1 {
             a.v("C08", "R1-searched-deeper-than-limit", g.cmd, format!("{}: the iteration reported as `info depth {}` expanded {} node(s) although the limit is {}", g.line, d, polls_at - prev_polls, n));
             break;
         }
